@@ -446,3 +446,78 @@ def u1(proj, rep):
         rep.violation('U1', f.qual, f'images of the basis vectors are stored as {store[0]}s but the result is transposed {ntr} time(s): '
                       f'to_unitary returns U^T (invisible for symmetric circuits)', m, store[1])
     return 1
+
+
+# ------------------------------------------------------------------------------------------------ D4
+RULE_D4 = ('D4: MeasureGate.forward consumes the incoming state with the gate\'s own index and generator in ONE call to '
+           'measure_quantum_vector(q0 <- the forward argument, index <- self.index, seed <- self.np_rng) and stores '
+           'bitstr / probability from positions 0 / 1 of that very call while returning position 2 (the collapsed state); '
+           'Circuit.measure records the gate with the gate object\'s own index.')
+
+
+def d4(proj, rep):
+    rep.rule('D4', RULE_D4)
+    ci = proj.cls('numqi.sim.circuit.MeasureGate')
+    m = ci.module
+    rep.touch(m)
+    fw = ci.methods.get('forward')
+    if fw is None:
+        rep.violation('D4', ci.qual, 'MeasureGate has no forward()', m, ci.node, text='MeasureGate.forward')
+        return 1
+    calls = []
+    for c in ast.walk(fw.node):
+        if isinstance(c, ast.Call):
+            r = resolve_callee(proj, m, c)
+            if r.kind == 'func' and r.qual == 'numqi.sim.state.measure_quantum_vector':
+                calls.append((c, r.node))
+    n = 1
+    if len(calls) != 1:
+        rep.violation('D4', fw.qual, f'{len(calls)} calls to measure_quantum_vector (exactly one expected: outcome, probabilities and '
+                      f'collapsed state must come from the same draw)', m, fw.node, text='MeasureGate.forward one call')
+        return n
+    c, fi = calls[0]
+    b = bind_call(c, fi, skip_self=False)
+    state_param = fw.params[1] if len(fw.params) > 1 else None
+    want = {fi.params[0]: state_param, fi.params[1]: 'self.index', fi.params[2]: 'self.np_rng'}
+    bad = None
+    for p, w in want.items():
+        a = b.args.get(p)
+        got = ast.unparse(a) if a is not None else None
+        if got != w:
+            bad = f'slot `{p}` of measure_quantum_vector receives `{got}`, expected `{w}`'
+            break
+    if bad:
+        rep.violation('D4', fw.qual, bad, m, c)
+    else:
+        rep.ok('D4', fw.qual, 'measure_quantum_vector(q0, self.index, self.np_rng)', m, c)
+    # unpacking roles
+    n += 1
+    st = c
+    while st is not None and not isinstance(st, ast.Assign):
+        st = getattr(st, '_parent', None)
+    if st is None or not isinstance(st.targets[0], ast.Tuple) or len(st.targets[0].elts) != 3:
+        rep.undecided('D4', fw.qual, 'result of the measurement call is not unpacked into three targets', m, c, text='MeasureGate unpack')
+    else:
+        t = [ast.unparse(e) for e in st.targets[0].elts]
+        rets = [r for r in ast.walk(fw.node) if isinstance(r, ast.Return) and r.value is not None]
+        ret_ok = len(rets) == 1 and ast.unparse(rets[0].value) == t[2]
+        if t[0] == 'self.bitstr' and t[1] == 'self.probability' and ret_ok:
+            rep.ok('D4', fw.qual, 'bitstr, probability stored from positions 0, 1; collapsed state (position 2) returned', m, st)
+        else:
+            rep.violation('D4', fw.qual, f'result unpacked as {t} and `{ast.unparse(rets[0]) if rets else "no return"}`: expected '
+                          f'(self.bitstr, self.probability, <returned state>)', m, st)
+    # Circuit.measure
+    n += 1
+    f = proj.func(f'{CIRC}.measure')
+    app = [x for x in ast.walk(f.node) if isinstance(x, ast.Call) and isinstance(x.func, ast.Attribute) and x.func.attr == 'append'
+           and 'gate_index_list' in ast.unparse(x.func.value)]
+    if len(app) == 1 and isinstance(app[0].args[0], ast.Tuple) and len(app[0].args[0].elts) == 2:
+        g, idx = app[0].args[0].elts
+        if isinstance(idx, ast.Attribute) and idx.attr == 'index' and ast.unparse(idx.value) == ast.unparse(g):
+            rep.ok('D4', f.qual, 'records (gate, gate.index)', f.module, app[0])
+        else:
+            rep.violation('D4', f.qual, f'records `{ast.unparse(app[0].args[0])}`: the list entry and the gate\'s own (normalised, sorted-checked) '
+                          f'index can differ', f.module, app[0])
+    else:
+        rep.undecided('D4', f.qual, 'append of the measure gate not found', f.module, f.node, text='Circuit.measure append')
+    return n
